@@ -21,6 +21,41 @@ import (
 	"time"
 )
 
+// changeSources edits the source tree in place: every regular file under src/ grows by a line, every directory under src/ gets
+// a new file; all with fixed modification times (the sources' metadata is part of what the output may depend on, the clock not).
+func changeSources(root string) {
+	t := time.Unix(1410000000, 0)
+	var dirs, regs []string
+	filepath.Walk(filepath.Join(root, "src"), func(p string, fi os.FileInfo, err error) error {
+		if err != nil {
+			return nil
+		}
+		switch {
+		case fi.IsDir():
+			dirs = append(dirs, p)
+		case fi.Mode().IsRegular():
+			regs = append(regs, p)
+		}
+		return nil
+	})
+	for _, p := range regs {
+		if f, err := os.OpenFile(p, os.O_APPEND|os.O_WRONLY, 0); err == nil {
+			f.WriteString("# changed\n")
+			f.Close()
+			os.Chtimes(p, t, t)
+		}
+	}
+	for _, d := range dirs {
+		p := filepath.Join(d, "zz-added-by-verif.txt")
+		if os.WriteFile(p, []byte("added\n"), 0o644) == nil {
+			os.Chtimes(p, t, t)
+		}
+	}
+	for _, d := range dirs {
+		os.Chtimes(d, t, t)
+	}
+}
+
 func famRepro(tr *Trace, scratch string, seed int64, tier string, nfpmBin string) M {
 	os.Unsetenv("SOURCE_DATE_EPOCH")
 	rng := rand.New(rand.NewSource(seed*31 + 5))
@@ -73,6 +108,9 @@ func famRepro(tr *Trace, scratch string, seed int64, tier string, nfpmBin string
 		pc.Nodes = append(keep, addScripts(rng, c, scriptSlots[:4+rng.Intn(11)])...)
 		if i%2 == 0 {
 			c.Changelog = []ChEntry{{"1.2.3", 1500000000, "Jane Doe <jane@example.org>", []string{"note"}}}
+			if i%4 == 0 { // an entry without a date: whatever stands in for it, it is not the clock
+				c.Changelog = append(c.Changelog, ChEntry{"1.2.2", 0, "Jane Doe <jane@example.org>", []string{"undated"}})
+			}
 		}
 		if i == 2 || (tier == "thorough" && i%10 == 2) { // larger than any compressor block / 1 MiB per-CPU split
 			b := fileBytes(int64(i), 1<<21+777)
@@ -187,6 +225,18 @@ func famRepro(tr *Trace, scratch string, seed int64, tier string, nfpmBin string
 	round(false)
 	time.Sleep(1100 * time.Millisecond) // one real tick of the wall clock: second-granular stamps would differ
 	round(true)
+	// Repro!ChangeSources: the referenced sources change (every file grows, every directory gets a new file - globs, trees and
+	// directory sources find it); this process has built from the old sources, a fresh process has not: both must agree
+	for _, r := range cases {
+		changeSources(r.pc.Root)
+		r.evs = append(r.evs, M{"ev": "envchange", "what": "sources", "value": "", "n": 0})
+		inproc(r, "after the sources changed")
+		if nfpmBin != "" {
+			r.evs = append(r.evs, M{"ev": "envchange", "what": "process", "value": "", "n": 0})
+			cross(r, "UTC", "abs")
+			inproc(r, "after the sources changed, again")
+		}
+	}
 	for _, r := range cases {
 		r.evs = append(r.evs, M{"ev": "endcase"})
 		tr.Emit(r.pc.ID, r.evs)
